@@ -64,9 +64,13 @@ pub enum Via {
     /// `v.zz()` on a value of a transitive package's type: uses that package's trait impl
     /// without naming (or importing) the package
     MethodSyntax,
+    /// enum constructor of the transitive package in a pattern
+    EnumPattern,
+    /// struct pattern naming the transitive package's struct
+    StructPattern,
 }
 
-pub const ILLEGAL_KINDS: [Illegal; 17] = [
+pub const ILLEGAL_KINDS: [Illegal; 19] = [
     Illegal::NotImported,
     Illegal::NotImportedVia(Via::SignatureType),
     Illegal::NotImportedVia(Via::LetAnnotation),
@@ -76,6 +80,8 @@ pub const ILLEGAL_KINDS: [Illegal; 17] = [
     Illegal::NotImportedVia(Via::InherentPath),
     Illegal::NotImportedVia(Via::StructLiteral),
     Illegal::NotImportedVia(Via::MethodSyntax),
+    Illegal::NotImportedVia(Via::EnumPattern),
+    Illegal::NotImportedVia(Via::StructPattern),
     Illegal::MissingPackage,
     Illegal::MisnamedPackage,
     Illegal::Cycle,
@@ -141,13 +147,15 @@ pub fn inject(proj: &Project, kind: &Illegal, p: &mut Prng) -> Option<(Files, Fi
             // legal helpers: Q exports a struct, a trait and an inherent method; R (which imports
             // Q) exports a constructor returning Q's struct and a struct implementing Q's trait
             twin.pkgs[qi].raw.push_str(
-                "\nstruct ZzS {\n    x: int32,\n}\n\ntrait ZzT {\n    fn zz(Self) -> int32;\n}\n\nimpl ZzT for ZzS {\n    fn zz(self: ZzS) -> int32 {\n        self.x + 1\n    }\n}\n\nimpl ZzS {\n    fn zzm(self: ZzS) -> int32 {\n        self.x\n    }\n}\n",
+                "\nstruct ZzS {\n    x: int32,\n}\n\nenum ZzE {\n    ZA,\n    ZB(int32),\n}\n\ntrait ZzT {\n    fn zz(Self) -> int32;\n}\n\nimpl ZzT for ZzS {\n    fn zz(self: ZzS) -> int32 {\n        self.x + 1\n    }\n}\n\nimpl ZzS {\n    fn zzm(self: ZzS) -> int32 {\n        self.x\n    }\n}\n",
             );
             twin.pkgs[ri].raw.push_str(&format!(
-                "\nstruct ZzR {{\n    x: int32,\n}}\n\nimpl {qn}::ZzT for ZzR {{\n    fn zz(self: ZzR) -> int32 {{\n        self.x\n    }}\n}}\n\nfn zz_make() -> {qn}::ZzS {{\n    {qn}::ZzS {{ x: 5 }}\n}}\n"
+                "\nstruct ZzR {{\n    x: int32,\n}}\n\nimpl {qn}::ZzT for ZzR {{\n    fn zz(self: ZzR) -> int32 {{\n        self.x\n    }}\n}}\n\nfn zz_make() -> {qn}::ZzS {{\n    {qn}::ZzS {{ x: 5 }}\n}}\n\nfn zz_make_e() -> {qn}::ZzE {{\n    {qn}::ZzE::ZB(4)\n}}\n"
             ));
             // P legally holds a value of the transitive type without naming it
-            twin.pkgs[pi].raw_last.push_str(&format!("\nfn zz_ok() -> int32 {{\n    let v = {rn}::zz_make();\n    1\n}}\n"));
+            twin.pkgs[pi].raw_last.push_str(&format!(
+                "\nfn zz_ok() -> int32 {{\n    let v = {rn}::zz_make();\n    match {rn}::zz_make_e() {{\n        _ => 1,\n    }}\n}}\n"
+            ));
             bad = twin.clone();
             let item = match via {
                 Via::SignatureType => format!("fn zz_bad(a: {qn}::ZzS) -> int32 {{\n    1\n}}\n"),
@@ -157,6 +165,8 @@ pub fn inject(proj: &Project, kind: &Illegal, p: &mut Prng) -> Option<(Files, Fi
                 Via::TraitPath => format!("fn zz_bad() -> int32 {{\n    {qn}::ZzT::zz({rn}::ZzR {{ x: 2 }})\n}}\n"),
                 Via::InherentPath => format!("fn zz_bad() -> int32 {{\n    {qn}::ZzS::zzm({rn}::zz_make())\n}}\n"),
                 Via::StructLiteral => format!("fn zz_bad() -> int32 {{\n    let v = {qn}::ZzS {{ x: 3 }};\n    1\n}}\n"),
+                Via::EnumPattern => format!("fn zz_bad() -> int32 {{\n    match {rn}::zz_make_e() {{\n        {qn}::ZzE::ZA => 1,\n        _ => 0,\n    }}\n}}\n"),
+                Via::StructPattern => format!("fn zz_bad() -> int32 {{\n    let {qn}::ZzS {{ x: px }} = {rn}::zz_make();\n    px\n}}\n"),
                 Via::MethodSyntax => format!("fn zz_bad() -> int32 {{\n    let v = {rn}::zz_make();\n    v.zz()\n}}\n"),
             };
             bad.pkgs[pi].raw_last.push_str(&format!("\n{item}"));
